@@ -148,6 +148,12 @@ def run(ctx, R, tier):
         ok = bool(disp) and all(hcfg.guarded(n, lambda e: edge_has_fact(e, known)) for n in disp)
         why = "dispatch can proceed for an id that is not in the registry"
     R.check(ok, "C16-R3", "handleRequest|lookup-unwrapped-and-checked", "dispatch uses the unwrapped registry value and only if it is not None", h.loc(), why)
+    if len(lookups) == 1:
+        results = [n for n in hcfg.nodes for c in calls_in(n) if ctx.is_call_to(c, h, "Pyro5.protocol.SendingMessage.__init__") and c.args
+                   and ctx.resolves_to_object(c.args[0], h, "Pyro5.protocol.MSG_RESULT")]
+        ok2 = bool(results) and all(hcfg.guarded(n, lambda e: edge_has_fact(e, known)) for n in results)
+        R.check(ok2, "C16-R3", "handleRequest|unknown-id-never-answered-with-a-result", "a MSG_RESULT reply is built only for a known id (the unknown-id branch raises)", h.loc(),
+                "for an id that is not registered the request can reach the normal result reply: the unknown-object error is lost")
 
     # ---------------------------------------------------------------- R4
     ap = ctx.fn("Pyro5.server._pyro_obj_to_auto_proxy")
@@ -215,6 +221,21 @@ def run(ctx, R, tier):
             ok = False
             why = "the replacement is not installed in a loop over all serializers"
     R.check(ok, "C16-R5", "register|replacement-for-every-serializer", "the auto-proxy hook is registered with every serializer", reg.loc(rt[0]) if rt else reg.loc(), why)
+    # ... for the class itself when a class is registered and for the object's type otherwise: every pass through the loop body installs one
+    rcfg_ = ctx.cfg(reg)
+    rtn = [n for c in rt for n in ctx.node_of(reg, c)]
+    loops_ = [l for c in rt for l in enclosing_loops(c, reg.node)]
+    ok = bool(loops_)
+    if ok:
+        lp = loops_[0]
+        heads = [n for n in rcfg_.nodes if n.kind == "for" and n.ast is lp]
+        # from the loop head into the body and back to the head: must pass an installation
+        ok = bool(heads) and rcfg_.all_paths_pass(heads, lambda n: n in rtn, edge_ok=lambda e: e.kind != "exc" and not (e.src in heads and e.polarity is False), targets=heads)
+        objp_ = reg.params[1]
+        forms = {unparse(c.args[0]) for c in rt if c.args}
+        ok = ok and forms == {objp_, "type(%s)" % objp_}
+    R.check(ok, "C16-R5", "register|replacement-on-every-branch", "each serializer gets the hook for the registered class, or for the type of the registered object",
+            reg.loc(rt[0]) if rt else reg.loc(), "one of the two registration forms (class / instance) no longer installs the auto-proxy hook: such objects travel by value although registered")
     v = st0.value
     ok = isinstance(v, ast.IfExp) and any(isinstance(x, ast.Call) and dotted(x.func) == "weakref.ref" for x in (v.body, v.orelse))
     if ok:
